@@ -408,7 +408,7 @@ func c08Run(payload string) string {
 
 func init() {
 	register("C08", &Prop{
-		Timeout: 10 * time.Second,
+		Timeout: 60 * time.Second, // generous: a loaded machine must not turn a slow case into HANG
 		Setup: func() {
 			// x.lim(): true for the first three calls of an evaluation, then false (bounded guard loops)
 			registerX("lim", func(args []interface{}) (interface{}, error) {
